@@ -85,12 +85,18 @@ def check(beh):
             q, m, rel = d["query"], d["method"], d["relation"]
             if rel == "cov":
                 k = 1 if m == "k1" else 2
+                if q == "sample_after_diag":
+                    try:
+                        op.diagonalization()
+                    except Exception:  # noqa
+                        pass
                 if q == "sample_ciq":
                     st.enter_context(S.ciq_samples(True))
                     st.enter_context(S.num_contour_quadrature(25))
                     st.enter_context(S.minres_tolerance(1e-8))
                 msg = numeric.sampling_covariance_check(lambda: op.zero_mean_mvn_samples(k), A, k, dtype,
-                                                         "direct" if d["exact"] and q != "sample_ciq" else "lanczos")
+                                                         "direct" if d["exact"] and q != "sample_ciq" else "lanczos",
+                                                         affine_base=(1234 + d["id"]) if q == "sample_ciq" else None)
                 if msg and not d["exact"] and q != "sample_ciq" and "differs from the represented matrix" in msg:
                     # Lanczos root (possibly truncated / broken down on a degenerate summand): its accuracy is C06 / C09's subject;
                     # the sampler-level facts (shape, independence across samples and batch members) were still checked
